@@ -64,6 +64,9 @@ TYPED = [
     {}, {"a": 1}, {1: "a"}, {"a": {"b": [1]}}, {None: 1}, {"session": 1, "authid": "a",
                                                             "authrole": "r"},
     [{"session": -1, "authid": "a", "authrole": "r"}],
+    # containers holding an integer beyond the int -> str digit limit (an error text that renders the
+    # rejected VALUE, not its type, must not fail on them)
+    [BIGNUM], {"a": BIGNUM}, {BIGNUM: 1}, [[{"a": [BIGNUM]}]],
 ]
 REDUCED = [None, True, -1, 2 ** 53 + 1, 1.5, "a b", "a", b"a", [1], {1: "a"}]
 EXTRA_KEYS = [("zz_unknown", 1), ("x_custom", 1), (1, 1), (None, 1), (b"k", 1), ("", 1),
